@@ -64,13 +64,13 @@ func c09Gen(rt *rapid.T) wProg {
 		return gPick(rt, pool, "topic")
 	}
 	// a few messages first
-	for i, n := 0, rapid.IntRange(1, 4).Draw(rt, "npub"); i < n; i++ {
+	for i, n := 0, gInt(rt, 1, 4, "npub"); i < n; i++ {
 		p.Ops = append(p.Ops, wOp{K: "pub", S: 0, T: "g0"})
 	}
-	n := rapid.IntRange(4, 16).Draw(rt, "nops")
+	n := gInt(rt, 4, 16, "nops")
 	for i := 0; i < n; i++ {
-		s := rapid.IntRange(0, len(p.Sess)-1).Draw(rt, "s")
-		switch x := rapid.IntRange(0, 99).Draw(rt, "opk"); {
+		s := gInt(rt, 0, len(p.Sess)-1, "s")
+		switch x := gInt(rt, 0, 99, "opk"); {
 		case x < 62:
 			what := gPick(rt, []string{"read", "read", "read", "recv", "recv", "recv", "kp", "kpa", "kpv", "data", "bogus", ""}, "what")
 			seq := gPick(rt, []int{-1, 0, 1, 1, 1, 2, 2, 2, 3, 3, 4, 5, 6, 1000}, "seq")
@@ -83,7 +83,7 @@ func c09Gen(rt *rapid.T) wProg {
 		case x < 70:
 			p.Ops = append(p.Ops, wOp{K: "set", S: s, T: topicFor(s), A: "mode", B: gPick(rt, []string{"JRWP", "JWP", "JRP", "JRWPS"}, "want")})
 		case x < 75:
-			p.Ops = append(p.Ops, wOp{K: "set", S: 0, T: "g0", A: "given", U: rapid.IntRange(1, 3).Draw(rt, "tgt"), B: gPick(rt, []string{"JRWPS", "JWP", "JRP"}, "given")})
+			p.Ops = append(p.Ops, wOp{K: "set", S: 0, T: "g0", A: "given", U: gInt(rt, 1, 3, "tgt"), B: gPick(rt, []string{"JRWPS", "JWP", "JRP"}, "given")})
 		case x < 77:
 			p.Ops = append(p.Ops, wOp{K: "leave", S: s, T: topicFor(s), F: gPct(rt, 40)})
 		case x < 80:
@@ -104,7 +104,7 @@ func c09Gen(rt *rapid.T) wProg {
 				p.Ops = append(p.Ops, wOp{K: "sub", S: s, T: t}, wOp{K: "sub", S: ps, T: fmt.Sprintf("p%d", u)}, wOp{K: "pub", S: ps, T: fmt.Sprintf("p%d", u)})
 			}
 			p.Ops = append(p.Ops, wOp{K: "leave", S: s, T: t, F: true},
-				wOp{K: "note", S: s, T: t, A: gPick(rt, []string{"recv", "recv", "read"}, "what"), N: rapid.IntRange(1, 4).Draw(rt, "seq")})
+				wOp{K: "note", S: s, T: t, A: gPick(rt, []string{"recv", "recv", "read"}, "what"), N: gInt(rt, 1, 4, "seq")})
 		case x < 86:
 			p.Ops = append(p.Ops, wOp{K: "sub", S: s, T: topicFor(s)})
 		case x < 90:
@@ -112,7 +112,7 @@ func c09Gen(rt *rapid.T) wProg {
 		case x < 94:
 			p.Ops = append(p.Ops, wOp{K: "get", S: s, T: topicFor(s), A: gPick(rt, []string{"desc", "sub", "desc sub"}, "what")})
 		case x < 97:
-			lo := rapid.IntRange(1, 3).Draw(rt, "lo")
+			lo := gInt(rt, 1, 3, "lo")
 			p.Ops = append(p.Ops, wOp{K: "del", S: s, T: topicFor(s), A: "msg", F: gPct(rt, 50), R: [][2]int{{lo, 0}}})
 		default:
 			p.Ops = append(p.Ops, wOp{K: "restart"})
@@ -272,7 +272,9 @@ func (o *c09Obs) After(w *wWorld, st *wStep) *kit.Viol {
 	if attached && at.Chan {
 		row = types.GrpToChn(route)
 	}
-	misaddressed := attached && at.Chan != asChanName
+	// A reader who spells the topic grpXXX is served as a reader (channelAccess); a normal subscriber
+	// who spells it chnXXX is still taken for a reader by the note path.
+	misaddressed := attached && !at.Chan && asChanName
 	if !misaddressed && !o.cacheAgrees(route, row, uid) {
 		return nil
 	}
@@ -302,7 +304,7 @@ func (o *c09Obs) After(w *wWorld, st *wStep) *kit.Viol {
 		}
 	}
 	if misaddressed {
-		// a channel reader addressing the topic as grpXXX (or a subscriber as chnXXX): wrong channel addressing
+		// a normal subscriber addressing the topic as chnXXX: wrong channel addressing
 		valid = false
 	}
 	if !attached && what != "recv" {
